@@ -641,6 +641,15 @@ def call(pe, name, args, kwargs, node):
     shp = arg(args, kwargs, 1, "newshape", kwargs.get("shape"))
     flat = args[0].flat() if isinstance(args[0], NDArr) else list(args[0])
     return NDArr.from_flat(flat, [int(fr(d)) for d in shp])
+  if name in ("np.ravel", "np.ndarray.flatten") and args and isinstance(
+      args[0], (NDArr, NArr, list, tuple)):
+    v = args[0]
+    if isinstance(v, (list, tuple)) and not isinstance(v, NArr):
+      v = NDArr([list(r) for r in v]) if v and all(
+          isinstance(r, (list, tuple)) for r in v) else NArr(v)
+    return NArr(v.flat()) if isinstance(v, NDArr) else NArr(v)
+  if name == "np.ravel" and args and isinstance(args[0], Tensor):
+    return Tensor(args[0].term, None)      # like K.flatten: layout unknown
   if name in ("np.squeeze", "tf.squeeze") and args and isinstance(
       args[0], (NDArr, NArr)):
     if isinstance(args[0], NArr):
@@ -1157,6 +1166,10 @@ def isinstance_(pe, v, ty):
         return True
     elif n in ("numbers.Number",):
       if is_num(v):
+        return True
+    elif isinstance(v, Mock) and "__classes__" in v.attrs:
+      # a rule's stand-in object that declares the classes it derives from
+      if n.split(".")[-1] in v.attrs["__classes__"]:
         return True
     else:
       pe.err("isinstance against external type %s" % n)
